@@ -47,10 +47,11 @@ var c16Types = map[string]map[string]uint8{
 // c16Exit is the exit-endpoint side of the world: the agent's real exit.Handler, a loopback sink as
 // destination and the tunnels terminated here (serial = order of successful opens).
 type c16Exit struct {
-	h    *exit.Handler
-	sink *c17Sink
-	tuns []*c16XTun
-	open map[int]bool // serials whose destination socket is open
+	relayedAckErr bool // the current op is `ack` / `err`: ack/err frames in the output are relayed ones
+	h             *exit.Handler
+	sink          *c17Sink
+	tuns          []*c16XTun
+	open          map[int]bool // serials whose destination socket is open
 }
 
 type c16XTun struct {
@@ -124,7 +125,14 @@ func (w *c16World) agentOutX(x *c16Exit, extra []string) string {
 		if !ok {
 			name = fmt.Sprintf("type%#x", s.f.Type)
 		}
-		parts = append(parts, fmt.Sprintf("%d:%s:%d", s.peer, name, s.f.StreamID))
+		item := fmt.Sprintf("%d:%s:%d", s.peer, name, s.f.StreamID)
+		switch {
+		case strings.HasSuffix(name, ".data"): // relayed payload and flags, byte for byte
+			item += fmt.Sprintf(":%s/f%d", hexTok(s.f.Payload), s.f.Flags)
+		case (strings.HasSuffix(name, ".ack") || strings.HasSuffix(name, ".err")) && x.relayedAckErr:
+			item += ":" + hexTok(s.f.Payload) // forwarded for an `ack` / `err` op (not an error this agent produced)
+		}
+		parts = append(parts, item)
 	}
 	tcp, udp, icmp := agent.C16Tables(w.a)
 	var keys []string
@@ -169,6 +177,7 @@ func init() {
 				return w.agentOutX(x, extra)
 			}
 			tOut := func(res string) string { return res + " | " + c16ShowTable(t) }
+			x.relayedAckErr = f[0] == "ack" || f[0] == "err"
 			switch f[0] {
 			case "reset":
 				x.reset()
@@ -186,12 +195,14 @@ func init() {
 				priv, pub, err := crypto.GenerateEphemeralKeypair()
 				must(err)
 				reqID++
+				preX := exit.C17Record(x.h, id)
+				countX := x.h.ConnectionCount()
 				open := &protocol.StreamOpen{RequestID: reqID, AddressType: protocol.AddrTypeIPv4, Address: []byte{127, 0, 0, 1},
 					Port: uint16(x.sink.ln.Addr().(*net.TCPAddr).Port), TTL: 8, EphemeralPubKey: pub}
 				agent.C16Process(w.a, c16ID(p), &protocol.Frame{Type: protocol.FrameStreamOpen, StreamID: id, Payload: open.Encode()})
 				c17Wait("answer to the exit open", func() bool { return w.bufs[p].Len() > 0 })
 				sent := w.drain()
-				var parts []string
+				var parts, xextra []string
 				for _, s := range sent {
 					parts = append(parts, fmt.Sprintf("%d:%s:%d", s.peer, c16FrameNames[s.f.Type], s.f.StreamID))
 					if s.f.Type == protocol.FrameStreamOpenAck && s.peer == p && s.f.StreamID == id {
@@ -203,10 +214,15 @@ func init() {
 						c17Wait("sink accept", func() bool { x.sink.mu.Lock(); defer x.sink.mu.Unlock(); return len(x.sink.conns) > serial })
 						x.tuns = append(x.tuns, &c16XTun{peer: p, id: id, key: crypto.DeriveSessionKey(shared, reqID, pub, ack.EphemeralPubKey, true), rec: exit.C17Record(x.h, id)})
 						x.open[serial] = true
+						// a record already stored under the id is displaced: the handler closes its connection
+						if ps := x.serialOf(preX); preX != nil && x.h.ConnectionCount() == countX && ps >= 0 && x.open[ps] {
+							delete(x.open, ps)
+							xextra = append(xextra, fmt.Sprintf("dstclosed:%d", ps))
+						}
 					}
 				}
 				x.settle()
-				rest := w.agentOutX(x, nil)
+				rest := w.agentOutX(x, xextra)
 				return "sent=[" + strings.Join(parts, " ") + "]" + strings.TrimPrefix(rest, "sent=[]")
 			case "xdata": // STREAM_DATA sealed under the session key of exit tunnel `serial`
 				p, id, serial := c16Atoi(f[1]), c16U64(f[2]), c16Atoi(f[3])
@@ -276,11 +292,15 @@ func init() {
 				return w.agentOutX(x, nil)
 			case "ack", "err", "data", "close":
 				payload := []byte{1, 2, 3}
-				if f[0] == "err" {
-					payload = (&protocol.StreamOpenErr{RequestID: 1, ErrorCode: 1, Message: "x"}).Encode()
+				var flags uint8
+				if len(f) > 4 {
+					payload = unhexTok(f[4])
+				}
+				if len(f) > 5 {
+					flags = uint8(c16Atoi(f[5]))
 				}
 				run := func() {
-					agent.C16Process(w.a, c16ID(c16Atoi(f[2])), &protocol.Frame{Type: c16Types[f[1]][f[0]], StreamID: c16U64(f[3]), Payload: payload})
+					agent.C16Process(w.a, c16ID(c16Atoi(f[2])), &protocol.Frame{Type: c16Types[f[1]][f[0]], StreamID: c16U64(f[3]), Flags: flags, Payload: payload})
 				}
 				if f[1] == "tcp" {
 					return tcpOp(c16U64(f[3]), run)
@@ -475,12 +495,25 @@ func c16Gen(w *bufio.Writer, seed int64, tier string) {
 				fmt.Fprintf(w, "open %s %d %d %d\n", kind, up, sid, next)
 			case x < 60:
 				t := tuns[r.intn(len(tuns))]
+				// payloads of every size class (empty, 1 byte, a few, a full 16 KiB frame), FIN flag on tcp
+				pl := hexTok(r.bytes(r.pick(0, 1, 3, 3, 3, 17, 255)))
+				if r.chance(2) {
+					pl = hexTok(r.bytes(r.pick(16383, 16384)))
+				}
+				fl := 0
+				if t.kind == "tcp" && r.chance(20) {
+					fl = 1
+				}
 				if r.chance(60) {
 					if from(t.up) {
-						fmt.Fprintf(w, "data %s %d %d\n", t.kind, t.up, t.upID)
+						fmt.Fprintf(w, "data %s %d %d %s %d\n", t.kind, t.up, t.upID, pl, fl)
 					}
 				} else if from(t.next) { // from the downstream side: ids our allocator handed out (1,3,5 / 2,4,6)
-					fmt.Fprintf(w, "%s %s %d %d\n", r.pickS("data", "data", "ack"), t.kind, t.next, 1+uint64(r.intn(8)))
+					if r.chance(70) {
+						fmt.Fprintf(w, "data %s %d %d %s %d\n", t.kind, t.next, 1+uint64(r.intn(8)), pl, fl)
+					} else {
+						fmt.Fprintf(w, "ack %s %d %d %s\n", t.kind, t.next, 1+uint64(r.intn(8)), pl)
+					}
 				}
 			case x < 68: // wrong peer / stale id
 				t := tuns[r.intn(len(tuns))]
